@@ -161,6 +161,26 @@ impl<N: Copy> OrderMap<N> {
         self.pos_to_node.remove(&pos);
     }
 
+    /// Record that the node that had index `old_index` is now known as `new_id`,
+    /// keeping its position.
+    ///
+    /// Panics if a node index is out of bounds.
+    #[track_caller]
+    pub(super) fn rename_node(
+        &mut self,
+        old_index: usize,
+        new_id: N,
+        graph: impl NodeIndexable<NodeId = N>,
+    ) {
+        let new_index = graph.to_index(new_id);
+        assert!(old_index < self.node_to_pos.len() && new_index < self.node_to_pos.len());
+
+        let pos = self.node_to_pos[old_index];
+        self.node_to_pos[old_index] = TopologicalPosition::default();
+        self.node_to_pos[new_index] = pos;
+        self.pos_to_node.insert(pos, new_id);
+    }
+
     /// Set the position of a node.
     ///
     /// Panics if the node index is out of bounds.
